@@ -32,7 +32,14 @@ def split_path(p):
 
 
 def lean_path(parts):
-    return "[" + ", ".join(lean_str(x) for x in parts) + "]"
+    return "[" + ", ".join(lean_seg(x) for x in parts) + "]"
+
+
+def lean_seg(x):
+    """a path segment; `[{i0}]` is the index of the enclosing `each` (rendered as a Lean expression in `i`)"""
+    if x == "[{i0}]":
+        return '("[" ++ toString i ++ "]")'
+    return lean_str(x)
 
 
 CONV = {"bool": "bool", "iso17": "normalize_datetime"}
@@ -51,6 +58,18 @@ def sym(src, strip):
         return "(.list [" + ", ".join(sym(s, strip) for s in src["list"]) + "])"
     if "tuple" in src:
         return "(.tup [" + ", ".join(sym(s, strip) for s in src["tuple"]) + "])"
+    if "special" in src:
+        if src["special"] == "first_point":      # transform_composite_datetime(date text, seconds of day)
+            pre = split_path((src["prefix"] + "datetime_of_first_point")[len(strip):])
+            return (f"(.leaf (.app2 \"composite_datetime\" (.path {lean_path(pre + ['date'])}) "
+                    f"(.path {lean_path(pre + ['seconds_of_day'])})))")
+        if src["special"] == "attitude_time_code":  # transform_time(day of year, millisecond of day) of point i (a timedelta; the year is added by fix_attitude_time)
+            pre = ["data_points", "[{i0}]", "time"]
+            return (f"(.leaf (.app2 \"attitude_time\" (.path {lean_path(pre + ['day_of_year'])}) "
+                    f"(.path {lean_path(pre + ['millisecond_of_day'])})))")
+        raise ValueError(src)
+    if "each" in src and "n" not in src:  # one entry per element of a counted array: a function of the count `n`
+        return f"(.list ((List.range n).map (fun i => {sym(src['src'], strip)})))"
     if "each" in src:
         n = src["n"]
         items = []
@@ -72,15 +91,19 @@ def kvs(d, strip):
     return "[" + ", ".join(f"({lean_str(k)}, {sym(v, strip)})" for k, v in sorted(d.items())) + "]"
 
 
-def grp(nodes, root, strip):
-    """nested Grp Sym from flat nodes under `root`"""
+def grp(nodes, root, strip, coords_attr=False):
+    """nested Grp Sym from flat nodes under `root`; `coords_attr`: the group-level `coordinates` bookkeeping attribute
+    (removed again when the tree is converted to xarray) is part of the transformer output"""
     node = nodes[root]
+    if coords_attr and node["coords"]:
+        node = dict(node)
+        node["attrs"] = dict(node["attrs"], coordinates={"list": [{"const": c} for c in node["coords"]]})
     vars_ = []
     for name, v in sorted(node["vars"].items()):
         dims = "[" + ", ".join(lean_str(d) for d in v["dims"]) + "]"
         vars_.append(f"({lean_str(name)}, ⟨{dims}, {sym(v['src'], strip)}, {kvs(v['attrs'], strip)}⟩)")
     children = sorted(p for p in nodes if p.startswith(root + "/") and "/" not in p[len(root) + 1:])
-    groups = [f"({lean_str(c[len(root) + 1:])}, {grp(nodes, c, strip)})" for c in children]
+    groups = [f"({lean_str(c[len(root) + 1:])}, {grp(nodes, c, strip, coords_attr)})" for c in children]
     return f"Grp.mk [{', '.join(vars_)}]\n    [{', '.join(groups)}]\n    {kvs(node['attrs'], strip)}"
 
 
@@ -197,6 +220,26 @@ def main():
                               ("radiometricData", "/metadata/radiometric_data", "LED:radiometric_data."),
                               ("transformations", "/metadata/transformations", "LED:facility_related_data_5.")):
         L.append(f"def {name} : Grp Sym :=\n  {grp(led, root, strip)}\n")
+    L.append("/-- platform position (28 state vectors; the first-point time is the composite of date text and seconds of day) -/")
+    L.append(f"def platformPosition : Grp Sym :=\n  {grp(led, '/metadata/platform_position', 'LED:platform_position.')}\n")
+    mp = prov["map_projection"]
+    assert json.dumps(mp["LCC"], sort_keys=True) == json.dumps(mp["MER"], sort_keys=True)
+    other = {k: v for k, v in mp["UTM"].items() if not k.startswith("/metadata/map_projection/projection")}
+    for name, nodes in (("UTM", mp["UTM"]), ("UPS", mp["UPS"]), ("NAT", mp["LCC"]), ("Other", other)):
+        L.append(f"def mapProjection{name} : Grp Sym :=\n  {grp(nodes, '/metadata/map_projection', 'LED:map_projection[0].')}\n")
+    L.append("""/-- the documented map-projection group per designator class (LCC and MER share the national-system section;
+    a designator outside the table keeps no projection section; one without '-' is an error) -/
+def mapProjection : Desig → Option (Grp Sym)
+  | .utm => some mapProjectionUTM
+  | .ups => some mapProjectionUPS
+  | .nat => some mapProjectionNAT
+  | .other => some mapProjectionOther
+  | .bad => none
+""")
+    L.append("/-- attitude group for `n` points (times as timedeltas from 1 January; `fix_attitude_time` adds the year) -/")
+    L.append(f"def attitude (n : Nat) : Grp Sym :=\n  {grp(led, '/metadata/attitude', 'LED:attitude.', coords_attr=True)}\n")
+    L.append("/-- data-quality summary for `n` channels -/")
+    L.append(f"def dataQualitySummary (n : Nat) : Grp Sym :=\n  {grp(led, '/metadata/data_quality_summary', 'LED:data_quality_summary.')}\n")
     for level, key in (("1.1", "image_1.1"), ("1.5", "image_1.5")):
         node = prov[key]["/imagery/{group}"]
         tag = level.replace(".", "")
